@@ -106,6 +106,11 @@ Definition of_module (k : skind) (m : nat) (H : bheap) : bheap * option bstate :
       end
   end.
 
+(* On the module= path the constructors' size arguments (num_visible, num_hidden, num_aux) are IGNORED: the state's
+   num_visible / num_hidden / num_aux are read from rbm_am, i.e. from the module. *)
+Definition of_module_args (k : skind) (nv : nat) (nh na : option nat) (m : nat) (H : bheap) : bheap * option bstate :=
+  of_module k m H.
+
 (* in-place write to one parameter of one network (param.data[...] = ..., optimizer.step, load_state_dict) *)
 Definition write_net (n p : nat) (v : bval) (H : bheap) : bheap :=
   match assoc n (b_nets H) with
@@ -134,6 +139,8 @@ Definition net_cells (H : bheap) (n : nat) : list nat :=
   match assoc n (b_nets H) with Some no => map snd (no_params no) | None => [] end.
 Definition net_sizes (H : bheap) (n : nat) : option (nkind * nat * nat * nat) :=
   match assoc n (b_nets H) with Some no => Some (no_kind no, no_nv no, no_nh no, no_na no) | None => None end.
+
+Definition state_sizes (H : bheap) (st : bstate) : option (nkind * nat * nat * nat) := net_sizes H (bs_am st).
 
 (* ---- fit guards ---- *)
 Inductive effect := EvTrainStart | EvEpochStart | EvBatchStart | OptimizerBuilt | RngDraw | ParamWrite | EvOther (n : nat).
